@@ -186,6 +186,9 @@ def dateTimeOfDayPeriod (fd pd : DateTime) (dateTimex : Str) (tod : Tod) (early 
     ([80, 84] ++ intStr ((eh : Int) - bh) ++ [72])
   .ok timex (todBegin fd.date v) (todEnd fd.date v) (todBegin pd.date v) (todEnd pd.date v)
 
+/-- `luis_date_from_datetime(x) + 'T' + luis_time_from_datetime(x)` -/
+def luisPoint (x : DateTime) : Str := formatDate x.date ++ [84] ++ formatTime (hourOf x) (minuteOf x) (secondOf x)
+
 /-! ### `parse_duration` ("last 3 hours", "next 20 minutes", "within 5 hours") -/
 
 /-- which of the prefix / suffix tests of the method succeeded (`is_exact_match` on the text before / after the
@@ -213,8 +216,7 @@ def parseDuration (ref : DateTime) (swift : Nat) (durTimex : Str) (f : DurFlags)
     let b ← (if f.prevAfter then back else some b)
     let e ← (if f.futureAfter then addSeconds b swift else some e)
     let e ← (if f.futureSuffixAfter then addSeconds b swift else some e)
-    let pt (x : DateTime) : Str := formatDate x.date ++ [84] ++ formatTime (hourOf x) (minuteOf x) (secondOf x)
-    pure (.ok (triple (pt b) (pt e) durTimex) b e b e)
+    pure (.ok (triple (luisPoint b) (luisPoint e) durTimex) b e b e)
 
 /-! ### `parse_relative_unit` ("next hour", "last minute", "rest of the day") -/
 
@@ -226,9 +228,6 @@ def RelUnit.seconds : RelUnit → Int
 
 def RelUnit.letter : RelUnit → Nat
   | .D => 68 | .H => 72 | .M => 77 | .S => 83
-
-/-- `luis_date_from_datetime(x) + 'T' + luis_time_from_datetime(x)` -/
-def luisPoint (x : DateTime) : Str := formatDate x.date ++ [84] ++ formatTime (hourOf x) (minuteOf x) (secondOf x)
 
 /-- `past` = `past_regex` found in the text (`swift = -1`). Unit `D` is "rest of the day": up to 23:59:59 of the
 reference day, duration in seconds; the other units shift the begin (past) or the end (otherwise) by one unit. -/
